@@ -7,9 +7,28 @@ THEOREMS: dict[str, list[str]] = {
         "Rbacx.C02.c02_first_applicable",
         "Rbacx.C02.c02_none_applicable",
     ],
+    "C19": [
+        "Rbacx.C19.c19_redaction_total",
+        "Rbacx.C19.c19_redaction_total_logger",
+        "Rbacx.C19.c19_placeholder_at_path",
+        "Rbacx.C19.c19_placeholder_noop_exact",
+        "Rbacx.C19.c19_placeholder_stable",
+        "Rbacx.C19.c19_placeholder_last_write",
+        "Rbacx.C19.c19_no_leak",
+        "Rbacx.C19.c19_no_leak_secret",
+        "Rbacx.C19.c19_never_reintroduced",
+        "Rbacx.C19.c19_no_leak_specs_at_state",
+        "Rbacx.C19.c19_caller_untouched",
+        "Rbacx.C19.c19_priority",
+        "Rbacx.C19.c19_priority_only",
+        "Rbacx.C19.c19_sampling",
+        "Rbacx.C19.c19_smart_defaults",
+        "Rbacx.C19.c19_size_bound",
+        "Rbacx.C19.c19_size_unbounded",
+    ],
 }
 
-PROPERTY_IMPORTS = ["Rbacx.Properties.C02"]
+PROPERTY_IMPORTS = ["Rbacx.Properties.C02", "Rbacx.Properties.C19"]
 
 
 def audit_source() -> str:
